@@ -194,7 +194,9 @@ class EinsumDistributiveLawMapper(
 
         if (_can_hlo_be_distributed(hlo)
                 # an implicit dtype promotion of an array operand does not commute
-                # with the einsum (e.g. a sum over bool is a logical reduction)
+                # with the einsum (e.g. a sum over bool is a logical reduction), and
+                # neither does saturating bool arithmetic
+                and expr.dtype.kind != "b"
                 and all(x.dtype == expr.dtype
                         for x in (hlo.x1, hlo.x2)  # type: ignore[attr-defined]
                         if isinstance(x, Array))):
